@@ -1,8 +1,4 @@
-pub mod alloc;
-pub mod conv;
-pub mod ctx;
-pub mod gen;
-pub mod model;
+pub use vh_core::{alloc, conv, ctx, gen, model, rng};
+pub use vh_corpus as corpus;
 pub mod mon;
 pub mod prog;
-pub mod rng;
